@@ -13,8 +13,8 @@ static void ST_##N(W a, W v, int sz){ VM_CHK(a,sz); if (sz == 8) { cs_##N(a, v);
 static W RMW_##N(int op, W a, W v, int sz){ VM_CHK(a,sz); __CPROVER_atomic_begin(); W o = LD_##N(a, sz); \
   W n = op == 0 ? v : op == 1 ? o + v : op == 2 ? o - v : op == 3 ? (o & v) : op == 4 ? (o | v) : (o ^ v); \
   STr_##N(a, n & vm_szmask(sz), sz); __CPROVER_atomic_end(); return o; } \
-static W CAS_##N(W a, W e, W n, int sz, W* ok, int weak){ VM_CHK(a,sz); __CPROVER_atomic_begin(); W o = LD_##N(a, sz); \
-  _Bool s = (o == e); if (VM_WEAK_FAIL(weak)) s = 0; if (s) STr_##N(a, n, sz); __CPROVER_atomic_end(); *ok = s; return o; } \
+static W CAS_##N(W a, W e, W n, int sz, int weak){ VM_CHK(a,sz); __CPROVER_atomic_begin(); W o = LD_##N(a, sz); \
+  _Bool s = (o == e); if (VM_WEAK_FAIL(weak)) s = 0; if (s) STr_##N(a, n, sz); __CPROVER_atomic_end(); vm_cas_ok = s; return o; } \
 static W CAS2_##N(W a, W elo, W ehi, W nlo, W nhi){ __CPROVER_assert((a & 15UL) == 0, "memory safety: cmpxchg16b operand not 16-byte aligned"); \
   __CPROVER_atomic_begin(); W lo = cl_##N(a), hi = cl_##N(a + 8); _Bool s = (lo == elo && hi == ehi); \
   if (s) { cs_##N(a, nlo); cs_##N(a + 8, nhi); } __CPROVER_atomic_end(); return s; }
@@ -22,7 +22,7 @@ SETS(DEF_ACC)
 #define LD(s, a, z) LD_##s(a, z)
 #define ST(s, a, v, z) ST_##s(a, v, z)
 #define RMW(s, op, a, v, z) RMW_##s(op, a, v, z)
-#define CAS(s, a, e, n, z, ok, weak) CAS_##s(a, e, n, z, ok, weak)
+#define CAS(s, a, e, n, z, weak) CAS_##s(a, e, n, z, weak)
 #define CAS2(s, a, elo, ehi, nlo, nhi) CAS2_##s(a, elo, ehi, nlo, nhi)
 #define VM_FREE(s, a) fr_##s(a)
 /* thread-private (non-escaping) stack slots: plain local arrays, no shared-memory events */
@@ -74,6 +74,9 @@ static void vm_thread_end(int t) {
   if (vm_stage == 2) __CPROVER_assume(0);
   vm_status[t] = VS_DONE;
 }
+static void vm_park(void) { vm_status[vm_tid] = VS_PARKED; vm_dead = 1; }
+static void vm_set_kt(W k) { vm_kt = k; }
+static W vm_is_parked(W t) { return vm_status[t] == VS_PARKED; }
 static void vm_start(void) {}
 static void vm_monitor(void) {
   _Bool all = 1, stuck = 0;
@@ -81,3 +84,11 @@ static void vm_monitor(void) {
   __CPROVER_assume(all);
   __CPROVER_assert(!stuck, "liveness: a thread spins forever although every other thread has finished (livelock / lost wake-up)");
 }
+
+/* default environment stubs (documented contract only) */
+static W ext_fiber_poll_events(void) { return 0; }                       /* no event system in this scenario: nothing triggered */
+static W ext_fiber_poll_events_blocking(W s, W us) { vm_spin(); return 0; } /* idle kernel thread: an await point */
+static W ext_dlsym(W h, W name) { return 0; }
+static W ext_pthread_self(void) { return vm_kt + 1; }
+static W ext_pthread_equal(W a, W b) { return a == b; }
+static W ext_usleep(W us) { vm_spin(); return 0; }
